@@ -27,8 +27,9 @@ pub fn run(rep: &mut Report, thorough: bool) {
             continue;
         }
         // ARP: all 65536 operations x target handled / not handled
-        let targets = [srv4(), srv4b(), Ip::V4([10, 0, 0, 2]), Ip::V4([255, 255, 255, 255])];
-        sweep_frames(rep, cfg, &format!("arp-op-{}", tag), "ARP op 0..65535 x 4 targets", 65536 * 4, |i| {
+        // (the deny list is about SOURCES: an address on it is an ordinary target / destination)
+        let targets = [srv4(), srv4b(), Ip::V4([10, 0, 0, 2]), Ip::V4([255, 255, 255, 255]), deny4()];
+        sweep_frames(rep, cfg, &format!("arp-op-{}", tag), "ARP op 0..65535 x 5 targets (incl. an address of the deny list)", 65536 * 5, |i| {
             let op = (i % 65536) as u16;
             let t = targets[(i / 65536) as usize];
             let mut a = Arp::request(MAC_CLI, v4(cli4()), v4(t));
@@ -36,7 +37,7 @@ pub fn run(rep: &mut Report, thorough: bool) {
             eth(&[0xff; 6], &MAC_CLI, ET_ARP, &a.bytes())
         });
         // ARP: sender/target address alphabets, hw/proto types, lengths
-        let ips: Vec<[u8; 4]> = vec![[0, 0, 0, 0], [255, 255, 255, 255], [224, 0, 0, 1], [127, 0, 0, 1], v4(srv4()), v4(cli4()), v4(srv4b()), [10, 0, 0, 2]];
+        let ips: Vec<[u8; 4]> = vec![[0, 0, 0, 0], [255, 255, 255, 255], [224, 0, 0, 1], [127, 0, 0, 1], v4(srv4()), v4(cli4()), v4(srv4b()), [10, 0, 0, 2], v4(deny4())];
         let macs: Vec<Mac> = vec![[0; 6], [0xff; 6], MAC_CLI, MAC_SRV, [1, 0, 0x5e, 0, 0, 1], [0x33, 0x33, 0, 0, 0, 1]];
         let types: Vec<(u16, u16, u8, u8)> = vec![(1, 0x0800, 6, 4), (6, 0x0800, 6, 4), (1, 0x86dd, 6, 16), (1, 0x0800, 8, 4), (1, 0x0800, 6, 0), (0, 0, 0, 0)];
         let dims = [ips.len() as u64, ips.len() as u64, macs.len() as u64, macs.len() as u64, types.len() as u64, 3];
@@ -146,6 +147,20 @@ pub fn run(rep: &mut Report, thorough: bool) {
             fr
         });
         // echo data lengths 0..1472 with position-dependent content
+        // echo requests TO an address of the deny list (a destination like any other: handled when
+        // there is no self-IP list) and to the other handled address
+        sweep_frames(rep, cfg, &format!("echo-dst-denied-{}", tag), "echo request to {an address of the deny list, the second handled address} x {v4,v6} x 16 identifiers", 2 * 2 * 16, |i| {
+            let d = crate::engine::unrank(i, &[2, 2, 16]);
+            let v6 = d[1] == 1;
+            let mut f = flow(v6, 1, 1);
+            f.sip = match (d[0], v6) {
+                (0, false) => deny4(),
+                (0, true) => deny6(),
+                (_, false) => srv4b(),
+                _ => srv6b(),
+            };
+            f.icmp_echo(d[2] as u16 * 4099, 1, b"dst")
+        });
         let maxlen: u64 = 1473;
         sweep_frames(rep, cfg, &format!("echo-len-{}", tag), "echo data length 0..1472 x {v4,v6}", maxlen * 2, |i| {
             let n = (i % maxlen) as usize;
@@ -153,7 +168,7 @@ pub fn run(rep: &mut Report, thorough: bool) {
             flow(i >= maxlen, 1, 1).icmp_echo(1, 2, &data)
         });
         // ND-NS: target x option layout x code x dst
-        let tg: Vec<Ip> = vec![srv6(), srv6b(), Ip::parse("2001:db8::2"), Ip::parse("ff02::1"), Ip::parse("::")];
+        let tg: Vec<Ip> = vec![srv6(), srv6b(), Ip::parse("2001:db8::2"), Ip::parse("ff02::1"), Ip::parse("::"), deny6()];
         let mut two = slla(&MAC_CLI);
         two.extend_from_slice(&[14, 1, 1, 2, 3, 4, 5, 6]);
         let opts: Vec<Vec<u8>> = vec![vec![], slla(&MAC_CLI), vec![99, 1, 0, 0, 0, 0, 0, 0], two, vec![1, 0, 0, 0, 0, 0, 0, 0], vec![1, 2, 0, 0, 0, 0, 0, 0, 0, 0, 0, 0, 0, 0, 0, 0], vec![1]];
